@@ -80,3 +80,37 @@ Proof.
   split; [reflexivity|]. cbn. intuition discriminate.
 Qed.
 Print Assumptions C17_constraint_pinned_refuted.
+
+(* ---- whole connections ---- *)
+Require Import Wire.Framing Wire.Session Wire.Case Spec.Oracles Spec.OracleFactsRows.
+Local Open Scope list_scope.
+
+(* For every configuration and every client byte stream: every ErrorResponse in the log of the whole connection
+   carries exactly [spec_fields e] — the outermost value of each decoration, severity and SQLSTATE defaulted,
+   every field at most once — of an error value e that is either one of the library's own errors or the very
+   value a configured callback returned: the parse function for the query text (simple Query and extended
+   Parse alike) or the statement function (under Execute and under a simple query alike). No path of the
+   session recodes, adds or drops a decoration. *)
+Theorem C17_connection_errors : forall sc,
+  Forall (fun m => match m with
+                   | BError fs => exists e, err_src sc e /\ fs = spec_fields e /\ NoDup (map fst fs)
+                   | _ => True end) (Oracles.outs (run_case sc)).
+Proof.
+  intros sc. eapply Forall_impl; [|apply errors_come_from_callbacks].
+  intros m H. destruct m; try exact I. destruct H as (e & He & ->).
+  exists e. split; [exact He|]. rewrite err_fields_spec. split; [reflexivity|apply spec_fields_nodup].
+Qed.
+Print Assumptions C17_connection_errors.
+
+(* non-vacuity: a parse error with decorations reported through a simple Query and through an extended Parse *)
+Definition ex_err_case : scase :=
+  {| sc_limit := 0; sc_auth := None; sc_params := []; sc_version := []; sc_tls := false; sc_mws := [];
+     sc_term := None;
+     sc_parse := [(bs "perr", PErr (ESev (bs "LOG") (EHint (bs "h") (EBase (bs "nope")))))];
+     sc_raw := ((let body := be32 196608 ++ cstr (bs "user") ++ cstr (bs "a") ++ [x00] in be32 (4 + lenZ body) ++ body) ++
+               client_msg x51 (cstr (bs "perr")) ++ client_msg x50 ([x00] ++ cstr (bs "perr") ++ [x00; x00]) ++ client_msg x53 [])%list;
+     sc_tlsin := None |}.
+Example C17_ex_connection :
+  filter (fun m => match m with BError _ => true | _ => false end) (Oracles.outs (run_case ex_err_case)) =
+  let m := BError (spec_fields (ESev (bs "LOG") (EHint (bs "h") (EBase (bs "nope"))))) in [m; m].
+Proof. vm_compute. reflexivity. Qed.
